@@ -285,6 +285,20 @@ fn handle(req: &Value) -> Value {
                 Err(e) => err_json(&e),
             }
         }
+        "tui_apply" => {
+            // TUI apply core (process env / cwd select the world)
+            let repo = req.get("repo").and_then(|x| x.as_str()).map(PathBuf::from);
+            let machine = req.get("machine").and_then(|x| x.as_str()).map(|x| x.to_string());
+            let adopt = req.get("adopt").and_then(|x| x.as_bool()).unwrap_or(false);
+            let confirmed = req.get("confirmed").and_then(|x| x.as_bool()).unwrap_or(false);
+            let profile = { let p = s(req, "profile"); if p.is_empty() { "default".to_string() } else { p } };
+            let target = { let t = s(req, "target"); if t.is_empty() { "all".to_string() } else { t } };
+            match agentpack::tui_apply::apply_from_tui(repo.as_deref(), machine.as_deref(), &profile, &target, adopt, confirmed) {
+                Ok(agentpack::tui_apply::ApplyOutcome::Applied { snapshot_id }) => json!({"ok": "applied", "snapshot_id": snapshot_id}),
+                Ok(agentpack::tui_apply::ApplyOutcome::NoChanges) => json!({"ok": "no_changes"}),
+                Err(e) => err_json(&e),
+            }
+        }
         "latest_snapshot" => {
             let home = home_of(&s(req, "home"));
             match agentpack::state::latest_snapshot(&home, &["deploy", "rollback"]) {
